@@ -146,10 +146,14 @@ theorem cHyps : SolverHyps cR cRE cEnv := by
   · rintro key hk
     exact ⟨Or.inr (Or.inr ⟨key, hk, rfl⟩), fun _ => rfl, fun v hv => by rw [hk]; simpa [cEnv, cBuild, cExp] using hv⟩
 
+/-- a concrete expression: `BVV(3, 3)` -/
+def cThree : Exp := { id := 7, bits := 3, vars := [], val := fun _ => 3, conc := some 3 }
+
 /-- a history in scope on a tree of two solvers: constrain, optimise, branch, enumerate in the child, ask again in the parent -/
 def cHist : List (Nat × Op) :=
   [(0, .add [cCon]), (0, .max cExp [] false), (0, .branch), (1, .eval cExp 10 []), (1, .add [cCon]),
-   (0, .min cExp [] true), (1, .solution cExp 7 []), (0, .simplify), (1, .satisfiable [cCon])]
+   (0, .min cExp [] true), (1, .solution cExp 7 []), (0, .simplify), (1, .satisfiable [cCon]), (1, .pickle),
+   (1, .batchEval [cExp, cThree] 4 []), (0, .downsize), (0, .isTrue cCon [])]
 
 theorem cHist_ok : HistOkS cR cRE 1 cHist := by
   have hc : cR cCon := Or.inr (Or.inl rfl)
@@ -158,7 +162,13 @@ theorem cHist_ok : HistOkS cR cRE 1 cHist := by
     ⟨fun a a' h => by simp [cCon, h 0 (by simp [cCon])], fun h => by simp [cCon] at h,
      fun b hb => by simp [cCon] at hb, fun _ _ _ h => by simp [cCon] at h⟩
   simp only [cHist, HistOkS, InScopeS, List.mem_singleton, forall_eq, List.not_mem_nil, false_implies, implies_true, and_true]
-  exact ⟨by omega, hc, by omega, he, by omega, trivial, by omega, ⟨he, by omega⟩, by omega, hc, by omega, he, by omega,
-    ⟨he, by simp [cExp]⟩, by omega, trivial, by omega, hwf⟩
+  refine ⟨by omega, hc, by omega, he, by omega, trivial, by omega, ⟨he, by omega⟩, by omega, hc, by omega, he, by omega,
+    ⟨he, by simp [cExp]⟩, by omega, trivial, by omega, hwf, by omega, trivial, by omega, ⟨?_, by omega⟩, by omega, trivial,
+    by omega, hwf⟩
+  intro e hemem
+  simp only [List.mem_cons, List.not_mem_nil, or_false] at hemem
+  rcases hemem with rfl | rfl
+  · exact ⟨fun _ => he, fun c hcc => by simp [cExp] at hcc⟩
+  · exact ⟨fun hcc => by simp [cThree] at hcc, fun c hcc a => by simp [cThree] at hcc ⊢; exact hcc⟩
 
 end Claripy.Solver
